@@ -420,6 +420,8 @@ def build_functions(W):
     add("secp.multiply_G", "secp", ["scalar"], lambda n: sp.multiply(sp.G, n), result_tag="secp_pt")
     add("secp.add_G_multiples", "secp", ["smallint", "smallint"], lambda a, b: sp.add(sp.multiply(sp.G, a), sp.multiply(sp.G, b)))
     add("secp.ecdsa_raw_sign", "secp", ["hash32", "priv32"], sp.ecdsa_raw_sign)
+    add("secp.ecdsa_raw_sign:bytearray", "secp", ["bytearray32", "bytearray32"], sp.ecdsa_raw_sign)
+    add("secp.privtopub:bytearray", "secp", ["bytearray32"], sp.privtopub, result_tag="secp_pt")
     add("secp.sign_recover", "secp", ["hash32", "priv32"], lambda h, k: sp.ecdsa_raw_recover(h, sp.ecdsa_raw_sign(h, k)))
     add("secp.add", "secp", ["secp_pt", "secp_pt"], sp.add, result_tag="secp_pt")
     add("secp.multiply", "secp", ["secp_pt", "int"], sp.multiply, result_tag="secp_pt")
@@ -444,6 +446,7 @@ LITERALS = {
     "priv32": [b"\x00" * 31 + b"\x01", b"\x12" * 32, bytes(range(1, 33))],
     "hash32": [b"\x00" * 32, b"\xff" * 32, bytes(range(32))],
     "pk": [], "sig": [],
+    "bytearray32": [bytearray(b"\x12" * 32), bytearray(range(1, 33)), bytearray(b"\x00" * 31 + b"\x01")],
     "bytearray": [bytearray(b""), bytearray(b"seed"), bytearray(32), bytearray(range(48)), bytearray(b"\x00\x30")],
     "secp_pt": [(0, 0), (0x79BE667EF9DCBBAC55A06295CE870B07029BFCDB2DCE28D959F2815B16F81798,
                          0x483ADA7726A3C4655DA4FBFC0E1108A8FD17B448A68554199C47D08FFB10D4B8)],
@@ -835,6 +838,10 @@ def t_pinned(ctx):
         {"f": "basic.Sign", "args": [lit(5), lit(b"message")]},
         {"f": "pop.Sign", "args": [lit(5), lit(b"message")]},
         {"f": "aug.Sign", "args": [lit(5), lit(b"message")]},
+        {"f": f"{OB}.final_exponentiate", "args": [lit(W.cls_by_key[f"{OB}_FQ12"](list(range(1, 13))))]},
+        {"f": f"{OB}.exp_by_p", "args": [lit(W.cls_by_key[f"{OB}_FQ12"]([1] * 12))]},
+        {"f": f"{OB}.final_exponentiate", "args": [lit(W.cls_by_key[f"{OB}_FQ12"](list(range(1, 13))))]},
+        {"f": "secp.ecdsa_raw_sign:bytearray", "args": [lit(bytearray(range(32))), lit(bytearray(b"\x12" * 32))]},
         {"f": "pop.KeyGen:bytearray", "args": [lit(bytearray(b"seed material")), lit(bytearray(b"info"))]},
         {"f": "hkdf_expand:bytearray", "args": [lit(bytearray(32)), lit(bytearray(b"info")), lit(33)]},
         {"f": "pop.KeyGen:bytearray", "args": [lit(bytearray(b"seed material")), lit(bytearray(b"info"))]},
